@@ -204,7 +204,7 @@ PROPERTIES = {
     },
     "C08": {
         "level": "exploration",
-        "rule": ("declared gate chains [g0..gk], k = 1..20 hops, gates on one module / a line of modules / random modules, named gates or clusters, channels "
+        "rule": ("declared gate chains [g0..gk], k = 1..20 hops (a twelfth: 17..50 hops, mostly without channels, so that more than 16 hops are traversed within one event), gates on one module / a line of modules / random modules, named gates or clusters, channels "
                  "(bitrate, latency, zero jitter) on random hops; built by connect calls in EVERY permutation for k <= 5 (every orientation vector for k <= 4) "
                  "and random permutations / orientations above, with repeated calls mixed in; 1..4 uncontended messages per chain in both directions with send "
                  "and send_in, a fifth of them sent by a third module through a reference to the end gate. Oracle = the declared chain: kind of every gate, path_iter from both ends (exact mirror images), path_end, channel(), symmetry "
@@ -218,7 +218,8 @@ PROPERTIES = {
         ],
         "floor": {
             "quick": {"deliveries_checked": 100000, "chain_walks_checked": 100000, "repeated_connect_calls": 20000, "third_peer_rejections": 50000,
-                      "enumerated_connect_orders": 1000, "chains_with_channels": 30000, "chains_with_reverse_sends": 30000, "max_hops": 20,
+                      "enumerated_connect_orders": 1000, "chains_with_channels": 30000, "chains_with_reverse_sends": 30000, "max_hops": 45,
+                      "chains_with_more_than_16_consecutive_hops_without_channel": 1000,
                       "sends_by_a_third_module_through_a_gate_reference": 10000},
             "thorough": {"deliveries_checked": 2000000, "chain_walks_checked": 2000000, "repeated_connect_calls": 400000, "third_peer_rejections": 1000000,
                          "enumerated_connect_orders": 1000, "max_hops": 20},
@@ -319,7 +320,7 @@ PROPERTIES = {
         "level": "exploration",
         "rule": ("declared module trees (2..25 nodes, depth <= 4, fan-out <= 4, sibling names from {a, ab, a1, b, a[0], abc, node, node1, node10, x_y, non-ASCII}, "
                  "0..4 start stages per module, nodes created directly or through a ModuleBlock with a scoped builder) inserted in EVERY valid order (parents first) "
-                 "for trees of <= 6 nodes and in random valid orders above; each module schedules a self message. All at_sim_start / handle_message / at_sim_end "
+                 "for trees of <= 6 nodes and in random valid orders above; each module schedules a self message; a twelfth of the modules reports an error from at_sim_end (run() must return an error and every module is still torn down exactly once). All at_sim_start / handle_message / at_sim_end "
                  "calls log into one sequence. Oracle from the declaration alone: start sequence == stage-major x depth-first pre-order with siblings in creation "
                  "order, exactly once per declared stage; at_sim_end exactly once per module and after the last event callback; current().path / name / parent / "
                  "child agree with the tree inside every callback; Sim::nodes() == declared set; duplicate path and missing parent rejected by a panic (fresh "
@@ -340,7 +341,7 @@ PROPERTIES = {
     "C14": {
         "level": "exploration",
         "rule": ("1..2 device-under-test modules with stacks of 0..4 elements from {pass, tag (sets a bit in the message), consume-if(id % m == r), chatty (sends a message "
-                 "from every hook)}, supplied globally through set_stack, per module through Module::stack, or both; 3..42 self messages at distinct instants, a task "
+                 "from every hook)}, supplied globally through set_stack, per module through Module::stack (element by element or as one appended stack), or both; 3..42 self messages at distinct instants, a task "
                  "with timer wake-ups, 1..2 start stages, optionally shutdown-and-restart (restart stages), tear-down (a sixth of the modules reports an error from at_sim_end, which run() must return); handlers optionally send two messages. All hooks, "
                  "handlers, task wake-ups and the receptions of the messages sent from hooks log into one sequence. Oracle = bracket grammar per module event: "
                  "event_start exactly once per element in stack order; incoming only after that element's start, in order, element i+1 sees exactly the tags "
@@ -356,7 +357,8 @@ PROPERTIES = {
         "floor": {
             "quick": {"brackets_parsed": 800000, "messages_consumed_by_an_element": 100000, "timer_wakeup_brackets": 20000, "restart_stage_brackets": 5000,
                       "teardown_brackets": 20000, "messages_sent_from_hooks_received": 500000, "cases_with_global_and_module_stack": 5000,
-                      "cases_with_stack_of_4": 2000, "cases_with_stack_of_0": 300, "teardowns_reporting_an_error": 2000},
+                      "cases_with_stack_of_4": 2000, "cases_with_stack_of_0": 300, "teardowns_reporting_an_error": 2000,
+                      "cases_appending_a_longer_module_stack_at_once": 500},
             "thorough": {"brackets_parsed": 16000000, "messages_consumed_by_an_element": 2000000, "timer_wakeup_brackets": 400000,
                          "restart_stage_brackets": 100000, "cases_with_global_and_module_stack": 100000},
         },
@@ -474,7 +476,7 @@ PROPERTIES = {
                  "simulation builder with include_cfg before and after the nodes (and their parents) are created: props_keys and prop_raw values. Oracle = "
                  "independent matcher (split at '.', '<any>' matches exactly one segment, the rest is the property name, no '<any>' in the name): key sets equal, "
                  "each value is the value of a matching entry, no panic. Typed reads: random sequences of prop::<u64 / String / bool / Vec<u32> / f64> on four "
-                 "keys: a successful read pins the type, other types must fail, the pinned / natural type stays readable. Non-trivial = case with a wildcard "
+                 "keys: a successful read pins the type, other types must fail, the pinned / natural type stays readable; in half of the sequences a second configuration is included between the reads (specific or wildcard keys) that carries a value of another type for the properties already typed: type and value must survive. Non-trivial = case with a wildcard "
                  "entry and a module that receives something; distinct = hash of the case."),
         "assumptions": ["keys are quoted YAML strings, values integers"],
         "stages": [
@@ -482,7 +484,8 @@ PROPERTIES = {
         ],
         "floor": {
             "quick": {"module_property_sets_compared": 1000000, "wildcard_entries": 150000, "paths_with_matching_entries": 100000,
-                      "cases_with_non_ascii_names": 50000, "cases_with_prefix_sharing_names": 40000, "typed_reads": 1500},
+                      "cases_with_non_ascii_names": 50000, "cases_with_prefix_sharing_names": 40000, "typed_reads": 40000,
+                      "typed_sequences_with_a_late_include": 1500},
             "thorough": {"module_property_sets_compared": 20000000, "wildcard_entries": 3000000, "typed_reads": 30000},
         },
     },
